@@ -43,6 +43,8 @@ JSelfSigned(e) ==
             [] e.variant = "days1" -> e.nb \in (e.t_before - 1)..(e.t_after + 1) /\ e.na - e.nb = 86400 /\ e.pin_own
             [] e.variant = "days15" -> e.na - e.nb = 15 * 86400 /\ ~e.pin_own
             [] e.variant = "days365" -> e.na - e.nb = 365 * 86400 /\ ~e.pin_own
+            [] e.variant = "nb_days14" -> e.nb = 1790000000 - 5 * 86400 /\ e.na - e.nb = D14
+            [] e.variant = "nb_days3" -> e.nb = 1790000000 + 40 * 86400 /\ e.na - e.nb = 3 * 86400
             [] e.variant = "period" -> e.nb = 1790000000 /\ e.na = 1790000777
             [] e.variant = "offset" -> e.nb = 1790000000 /\ e.na = 1790005000
 
@@ -81,7 +83,7 @@ JBind(e) ==
        \* a client socket of one family cannot reach the other one; dual stack reaches both
        /\ Fits(t.v4, e.v4) /\ Fits(t.v6, e.v6)
 
-JIdleCfg(e) == ~e.panic /\ (e.res = "ok") = IdleRepresentable(e.idle)
+JIdleCfg(e) == ~e.panic /\ (e.res = "ok") = IdleRepresentable(e.ms)
 
 \* without keep-alive the connection times out no earlier than the idle timeout and within 1.5 s of it;
 \* with a keep-alive interval below it the connection is still alive after three idle periods
@@ -90,7 +92,10 @@ JIdleEffect(e) ==
   ELSE e.end = "alive"
 
 JMigration(e) == e.alive_after_rebind = e.allow
-JReload(e) == e.first_sees_a /\ e.reload_ok /\ e.second_connected /\ e.second_sees_b /\ e.first_still_a /\ e.old_alive
+JReload(e) ==
+  /\ e.first_sees_a /\ e.reload_ok /\ e.second_connected /\ e.second_sees_b /\ e.first_still_a /\ e.old_alive
+  \* a reload that reports failure has no effect
+  /\ e.rebind_taken_fails /\ e.after_failed_connected /\ e.after_failed_sees_b
 
 \* PinRule is a function of (certificate, hash set, now): the same endpoint asking again later gets
 \* the answer for the later "now" - whatever was accepted, cached or resumed before
@@ -103,6 +108,8 @@ Judge(e) ==
   CASE e.ev = "pin" -> JPin(e)
     [] e.ev = "pin_flip" -> ~e.panic /\ e.res = "err"
     [] e.ev = "pin_reconnect" -> JPinReconnect(e)
+    \* PinRule looks at the leaf only (valid P-256 leaves, now inside a 5-day period): accepted iff the LEAF is pinned
+    [] e.ev = "pin_chain" -> ~e.panic /\ (e.res = "ok") = e.leaf_pinned
     [] e.ev = "selfsigned" -> JSelfSigned(e)
     [] e.ev = "pem_rt" -> JPemRt(e)
     [] e.ev = "pem_bad" -> JPemBad(e)
